@@ -3,7 +3,8 @@
 Spec: spec/Ref.tla is the behavioural oracle.  TLC evaluates the reference on
 generated programs that run to completion; lint bait that the reference
 semantics makes inert (unused literal statements, unused lets of pure
-expressions, duplicated operands of || and &&, list length comparisons) is
+expressions, duplicated operands of || and &&, list length comparisons, unused type
+parameters in several layouts) is
 then added to the text, so the baited program -- and every program obtained by
 applying the checker's automatic fixes to it -- must still print and return
 what Ref.tla computes for the original.  Binding: `garden check --fix
@@ -30,6 +31,12 @@ def bait(rnd, src):
         ind = STMT.match(lines[i]).group(1)
         k += 1
         lines.insert(i, ind + rnd.choice(BAIT).replace("{k}", str(k)))
+    # unused type parameters on a function, in several layouts: inert, and the fix removes them
+    funs = [i for i, l in enumerate(lines) if re.match(r"^(fun|method) \w+\(", l)]
+    if funs and rnd.random() < 0.5:
+        i = rnd.choice(funs)
+        tp = rnd.choice(["<TU>", "< TU>", "<TU >", " <TU>", "<TU, TV>", "<TU,\n  TV>", "<\n  TU\n>", "<TU\n  ,>"])
+        lines[i] = re.sub(r"^((?:fun|method) \w+)\(", lambda m: m.group(1) + tp + "(", lines[i], count=1)
     return "\n".join(lines)
 
 
@@ -141,7 +148,7 @@ def run(tier, seed):
                     {"cmd": "garden check --fix --stdout p.gdn", "src": st["cur"], "expected": st["exp"]})
     fixed = sum(1 for st in state if st["changed"])
     vacuity(fixed > 100, f"programs that check --fix changed: {fixed}")
-    ck.assumptions += ["bait statements are inert in the reference semantics (checked on the real interpreter before fixing); unused imports and type parameters are not generated"]
+    ck.assumptions += ["bait statements are inert in the reference semantics (checked on the real interpreter before fixing); unused imports are not generated"]
     return ck.finish(rule="seeded generated programs that run to completion, as generated and with seeded inert lint bait (1 / 3 variants); fixes applied repeatedly up to a fixed point; non-trivial = rounds in which the text changed",
                      extra={"programs_changed": fixed, "max_rounds": max([st["rounds"] for st in state] + [0])})
 
